@@ -17,12 +17,12 @@ Definition obs (f : flavour) (e : t) : val :=
        VB (Grouping e); VB (ReservedBytes e); vn (StreamSyncSignal e); vn (DataFieldLength e) ].
 
 (* decode, query every getter, re-encode; last field: the input buffer is unchanged (always 1 in the model) *)
-Definition read_obs (b : bytes) : val :=
+Definition read_obs (g : bool) (b : bytes) : val :=
   vres (fun fe : flavour * t =>
           let '(f, e) := fe in
           let '(d, e') := Data f e in
           VL [obs f e; VB d; vn (DataFieldLength e'); VI 1%Z])
-       (ReadEncoderBoundaryPoint b).
+       (ReadEncoderBoundaryPoint g b).
 
 Definition vb (v : Z) : bool := negb (Z.eqb v 0).
 (* one step of a build script: [opcode arg] *)
@@ -63,7 +63,7 @@ Definition build_obs (f : flavour) (script : list val) : val :=
   | None => vbad
   | Some e =>
     let '(d, e') := Data f e in
-    VL [obs f e; VB d; obs f e'; read_obs d]
+    VL [obs f e; VB d; obs f e'; read_obs false d]
   end.
 Definition flavour_of (z : Z) : option flavour :=
   if Z.eqb z 0 then Some Comcast else if Z.eqb z 1 then Some CableLabs else None.
@@ -113,7 +113,9 @@ Definition dcablelabs (a : list val) : option cablelabs :=
 
 Open Scope string_scope.
 Definition ops : list op := [
-  ("ebp.read", fun a => match a with [VB b] => read_obs b | _ => vbad end);
+  ("ebp.read", fun a => match a with [VB b] => read_obs false b | _ => vbad end);
+  (* the readers with notes/findings/C05-ebp.patch applied (goexec runs the same real function) *)
+  ("ebp.readg", fun a => match a with [VB b] => read_obs true b | _ => vbad end);
   ("ebp.build", fun a => match a with
      | [VI f; VL script] => match flavour_of f with Some f => build_obs f script | None => vbad end
      | _ => vbad end);
